@@ -123,20 +123,20 @@ static const void* tablePtr(const BDDTopDownTreeAut& x) { return x.core_->transT
 static void convCheck(const BDDBottomUpTreeAut& x, const ref::TA& m, Ctx& c) { BDDTopDownTreeAut t = x.GetTopDownAut(); ref::TA T = numModel(t); if (!ref::equalLang(T, m)) c.viol("bdd-bu/GetTopDownAut", "language_changed", {"in_history"}, "result " + T.str(SIG().names.data()) + " expected language of " + m.str(SIG().names.data())); }
 static void convCheck(const BDDTopDownTreeAut&, const ref::TA&, Ctx&) {}
 
-enum K { LOAD, LOADINTO, COPY, ASSIGN, DESTROY, UNION, UDS, ISECT, UNREACH, USELESS, TOPDOWN, SETFINAL };
+enum K { LOAD, LOADINTO, COPY, ASSIGN, DESTROY, UNION, UDS, ISECT, UNREACH, USELESS, TOPDOWN, SETFINAL, ADDTRANS };
 struct Op { K kind; int i, j, k, m; };
 static const int S = 3;
 static std::vector<Op> buildMenu() { std::vector<Op> v;
-  for (int i = 0; i < S; i++) { for (int m = 0; m < 4; m++) { v.push_back({LOAD, i, 0, 0, m}); v.push_back({LOADINTO, i, 0, 0, m}); } v.push_back({DESTROY, i, 0, 0, 0}); v.push_back({TOPDOWN, i, 0, 0, 0}); v.push_back({SETFINAL, i, 0, 0, 0}); v.push_back({SETFINAL, i, 0, 0, 1}); }
+  for (int i = 0; i < S; i++) { for (int m = 0; m < 4; m++) { v.push_back({LOAD, i, 0, 0, m}); v.push_back({LOADINTO, i, 0, 0, m}); } v.push_back({DESTROY, i, 0, 0, 0}); v.push_back({TOPDOWN, i, 0, 0, 0}); v.push_back({SETFINAL, i, 0, 0, 0}); v.push_back({SETFINAL, i, 0, 0, 1}); for (int m = 0; m < 4; m++) v.push_back({ADDTRANS, i, 0, 0, m}); }
   for (int i = 0; i < S; i++) for (int j = 0; j < S; j++) if (i != j) { v.push_back({COPY, i, j, 0, 0}); v.push_back({ASSIGN, i, j, 0, 0}); }
   for (K kd : {UNION, UDS, ISECT}) for (int i = 0; i < S; i++) for (int j = 0; j < S; j++) for (int k = 0; k < S; k++) v.push_back({kd, i, j, k, 0});
   for (K kd : {UNREACH, USELESS}) for (int i = 0; i < S; i++) for (int k = 0; k < S; k++) v.push_back({kd, i, 0, k, 0});
   return v; }
 static const std::vector<Op>& menu() { static std::vector<Op> m = buildMenu(); return m; }
-static const char* KN[] = {"load", "load-into", "copy", "assign", "destroy", "Union", "UnionDisjointStates", "Intersection", "RemoveUnreachableStates", "RemoveUselessStates", "GetTopDownAut", "SetStateFinal"};
+static const char* KN[] = {"load", "load-into", "copy", "assign", "destroy", "Union", "UnionDisjointStates", "Intersection", "RemoveUnreachableStates", "RemoveUselessStates", "GetTopDownAut", "SetStateFinal", "AddTransition"};
 static std::string opName(int x) { const Op& o = menu()[x]; char b[96];
   switch (o.kind) { case LOAD: snprintf(b, sizeof b, "s%d=load(M%d)", o.i, o.m); break; case LOADINTO: snprintf(b, sizeof b, "s%d.LoadFromString(M%d)", o.i, o.m); break; case COPY: snprintf(b, sizeof b, "s%d=copy(s%d)", o.j, o.i); break; case ASSIGN: snprintf(b, sizeof b, "s%d = s%d", o.j, o.i); break;
-    case DESTROY: snprintf(b, sizeof b, "destroy s%d", o.i); break; case TOPDOWN: snprintf(b, sizeof b, "s%d.GetTopDownAut()", o.i); break; case SETFINAL: snprintf(b, sizeof b, "s%d.SetStateFinal(%d)", o.i, o.m ? 10 : 0); break; case UNION: case UDS: case ISECT: snprintf(b, sizeof b, "s%d=%s(s%d,s%d)", o.k, KN[o.kind], o.i, o.j); break; default: snprintf(b, sizeof b, "s%d=s%d.%s()", o.k, o.i, KN[o.kind]); }
+    case DESTROY: snprintf(b, sizeof b, "destroy s%d", o.i); break; case TOPDOWN: snprintf(b, sizeof b, "s%d.GetTopDownAut()", o.i); break; case SETFINAL: snprintf(b, sizeof b, "s%d.SetStateFinal(%d)", o.i, o.m ? 10 : 0); break; case ADDTRANS: snprintf(b, sizeof b, "s%d.AddTransition(%s)", o.i, o.m == 0 ? "b->0" : o.m == 1 ? "g(0,0)->0" : o.m == 2 ? "b->10" : "g(10,10)->10"); break; case UNION: case UDS: case ISECT: snprintf(b, sizeof b, "s%d=%s(s%d,s%d)", o.k, KN[o.kind], o.i, o.j); break; default: snprintf(b, sizeof b, "s%d=s%d.%s()", o.k, o.i, KN[o.kind]); }
   return b; }
 static std::string describe(const std::vector<int>& h) { std::string s; for (size_t i = 0; i < h.size(); i++) s += (i ? "; " : "") + opName(h[i]); return s + "   [M0: a->0 g(0,0)->1 F{1}; M1: b->0 g(0,0)->0 F{0}; M2: a->10 g(10,10)->11 b->11 F{11}; M3: b->10 g(10,10)->10 g(10,11)->10 a->11 F{10}]"; }
 
@@ -158,6 +158,8 @@ template <class Aut> static hist::StepResult run(const std::vector<int>& h, Ctx&
       case ASSIGN: if (!si.a || !sj.a) { en = false; break; } *sj.a = *si.a; sj.m = si.m; break;
       case DESTROY: if (!si.a) { en = false; break; } si.a.reset(); si.m = ref::TA(); break;
       case TOPDOWN: if (!si.a || std::is_same<Aut, BDDTopDownTreeAut>::value) { en = false; break; } if (last) convCheck(*si.a, si.m, c); break;
+      case ADDTRANS: if (!si.a) { en = false; break; } { size_t q = o.m >= 2 ? 10 : 0; if (!si.m.states().count(q)) { en = false; break; } bool bin = o.m & 1; auto tr = si.a->GetAlphabet()->GetSymbolTransl();
+          typename Aut::SymbolType sy = (*tr)(bin ? "g" : "b"); typename Aut::StateTuple ch; if (bin) { ch.push_back(q); ch.push_back(q); } si.a->AddTransition(ch, sy, q); ref::Rule r; r.sym = bin ? 2 : 1; r.ch = std::vector<size_t>(ch.begin(), ch.end()); r.par = q; si.m.rules.insert(r); } break;
       case SETFINAL: if (!si.a) { en = false; break; } { size_t q = o.m ? 10 : 0; if (!si.m.states().count(q)) { en = false; break; } si.a->SetStateFinal(q); si.m.finals.insert(q); } break;
       case UNION: if (!si.a || !sj.a) { en = false; break; } { ref::TA a = si.m, b = sj.m; ref::TA v = store(sk, Aut::Union(*si.a, *sj.a)); sem(ref::equalLang(v, ref::disjointUnion(a, b)), "language_not_the_union", "result " + v.str(N)); } break;
       case UDS: if (!si.a || !sj.a) { en = false; break; } { ref::TA a = si.m, b = sj.m; bool disj = true; for (auto q : a.states()) if (b.states().count(q)) disj = false; if (!disj) { en = false; break; } ref::TA v = store(sk, Aut::UnionDisjointStates(*si.a, *sj.a)); sem(ref::equalLang(v, ref::plainUnion(a, b)), "language_not_the_union", "result " + v.str(N)); } break;
